@@ -1,0 +1,24 @@
+//go:build verif
+
+// Contracts for package ssh/server (comment-only; read by /verif/govc).
+//
+// akListed(F, K): the authorized-keys text F lists the key whose wire
+// encoding is K (defined by unfolding over ParseAuthorizedKey: the first key
+// of F is K, or K is listed in the rest; comment, blank and unparsable lines
+// are skipped by the parser). ufs_key_marshal(id(k)) is k.Marshal().
+
+package server
+
+//@ func verifyAuthorizedKeys
+//@   requires [args] user != nil && !isnil(offeredPubKey)
+//@   assigns nothing
+//@   ensures [listed-key-accepted] implies(akListed(str(authorizedKeysBytes), ufs_key_marshal(id(offeredPubKey))), isnil(result1) && result0 != nil)
+//@   ensures [unlisted-key-rejected] implies(!akListed(str(authorizedKeysBytes), ufs_key_marshal(id(offeredPubKey))), !isnil(result1) && result0 == nil)
+//@   loop 1 invariant [map-is-consumed-prefix] akListed(old(str(authorizedKeysBytes)), ufs_key_marshal(id(offeredPubKey))) == (authorizedKeysMap[ufs_key_marshal(id(offeredPubKey))] || akListed(str(authorizedKeysBytes), ufs_key_marshal(id(offeredPubKey))))
+
+// Every error path of the callback denies: (nil, err). The decision is taken
+// from the file as it is now (no state is kept between calls).
+//@ func PublicKeyCallback
+//@   requires [args] !isnil(c) && !isnil(offeredPubKey)
+//@   assigns nothing
+//@   ensures [deny-on-error] implies(!isnil(result1), result0 == nil)
